@@ -151,13 +151,17 @@ func runC07(c *Ctx) {
 
 	// ---- R2 compiled: validate before run
 	c.rule("C07-R2", "MPT/GRD: in the compiled route handler VM.Execute is unreachable once the err==nil edge of validateCompiledInput is deleted (validation happens for every request, whatever method/content type), its failure edge answers through sendClientError (4xx), and validateCompiledInput returns nil only under the no-contract conditions or after ValidateObjectAgainstTypeDef succeeded")
+	// The compiled path's validator is resolved by role: the *core* validators are the functions of cmd/glyph
+	// that call TypeChecker.ValidateObjectAgainstTypeDef themselves; a function all of whose returns hand back
+	// the result of a call to a validator (a thin wrapper fixing an argument) is a validator too.
+	coreValidators, validatorFns := compiledValidators(c)
 	if cr := c.mustFn("C07-R2", glyphCmd, "createCompiledRouteHandler"); cr != nil {
 		for _, cl := range innerClosures(cr) {
 			var vs []ssa.Value
 			var exec ssa.Instruction
 			eachInstr(cl, func(_ *ssa.BasicBlock, _ int, ins ssa.Instruction) {
 				if call, ok := ins.(*ssa.Call); ok {
-					if callName(call) == modPath+"/cmd/glyph.validateCompiledInput" {
+					if sf := staticFn(call); sf != nil && validatorFns[sf] {
 						vs = append(vs, call)
 					}
 					if callName(call) == vmPath+".VM.Execute" {
@@ -194,7 +198,10 @@ func runC07(c *Ctx) {
 			// the validated value is the one bound as input
 			okSame := false
 			for _, v := range vs {
-				arg := v.(*ssa.Call).Call.Args[1]
+				arg := bodyArgOf(v.(*ssa.Call))
+				if arg == nil {
+					continue
+				}
 				eachInstr(cl, func(_ *ssa.BasicBlock, _ int, ins ssa.Instruction) {
 					call, ok := ins.(*ssa.Call)
 					if !ok || callName(call) != vmPath+".VM.SetLocal" {
@@ -210,7 +217,10 @@ func runC07(c *Ctx) {
 			c.ob("C07-R2", "cmd/glyph.createCompiledRouteHandler#validated-value-is-bound", exec.Pos(), okSame, "the value bound as `input` is not the value that was validated")
 		}
 	}
-	if vi := c.mustFn("C07-R2", glyphCmd, "validateCompiledInput"); vi != nil {
+	if len(coreValidators) == 0 {
+		c.ob("C07-R2", "cmd/glyph.validateCompiledInput#calls-validator", token.NoPos, false, "no function of cmd/glyph calls ValidateObjectAgainstTypeDef: the compiled path has no input validator")
+	}
+	for _, vi := range coreValidators {
 		var validates, okFlags, inNil []ssa.Value
 		eachInstr(vi, func(_ *ssa.BasicBlock, _ int, ins ssa.Instruction) {
 			switch x := ins.(type) {
@@ -250,7 +260,7 @@ func runC07(c *Ctx) {
 			}
 			return false
 		})
-		c.ob("C07-R2", "cmd/glyph.validateCompiledInput#calls-validator", vi.Pos(), len(validates) > 0, "validateCompiledInput no longer calls ValidateObjectAgainstTypeDef")
+		c.ob("C07-R2", fnKey(vi)+"#calls-validator", vi.Pos(), len(validates) > 0, "the compiled path's validator no longer calls ValidateObjectAgainstTypeDef")
 	}
 
 	// ---- R3 result check
@@ -865,4 +875,71 @@ func validationWrapper(c *Ctx, fn *ssa.Function) bool {
 func isErrorType(t types.Type) bool {
 	n, ok := t.(*types.Named)
 	return ok && n.Obj().Pkg() == nil && n.Obj().Name() == "error"
+}
+
+// compiledValidators resolves the compiled path's input validators by role (see C07-R2).
+func compiledValidators(c *Ctx) (core []*ssa.Function, all map[*ssa.Function]bool) {
+	all = map[*ssa.Function]bool{}
+	fns := c.srcFuncs("cmd/glyph")
+	for _, f := range fns {
+		if f.Parent() != nil || f.Signature.Results().Len() != 1 || !isErrorType(f.Signature.Results().At(0).Type()) {
+			continue
+		}
+		direct := false
+		eachInstr(f, func(_ *ssa.BasicBlock, _ int, ins ssa.Instruction) {
+			if call, ok := ins.(*ssa.Call); ok && callName(call) == interpPath+".TypeChecker.ValidateObjectAgainstTypeDef" {
+				direct = true
+			}
+		})
+		if direct {
+			core = append(core, f)
+			all[f] = true
+		}
+	}
+	for changed := true; changed; {
+		changed = false
+		for _, f := range fns {
+			if all[f] || f.Parent() != nil || f.Signature.Results().Len() != 1 || !isErrorType(f.Signature.Results().At(0).Type()) {
+				continue
+			}
+			n, okAll := 0, true
+			for _, b := range f.Blocks {
+				for _, ins := range b.Instrs {
+					ret, ok := ins.(*ssa.Return)
+					if !ok {
+						continue
+					}
+					n++
+					call, ok := stripConv(retVals(ret)[0]).(*ssa.Call)
+					if !ok || staticFn(call) == nil || !all[staticFn(call)] || bodyArgOf(call) == nil {
+						okAll = false
+						continue
+					}
+					// the wrapper passes its own body parameter on
+					if !derivesFrom(bodyArgOf(call), func(v ssa.Value) bool { _, isP := v.(*ssa.Parameter); return isP }) {
+						okAll = false
+					}
+				}
+			}
+			if n > 0 && okAll {
+				all[f] = true
+				changed = true
+			}
+		}
+	}
+	return core, all
+}
+
+// bodyArgOf: the argument of a validator call that carries the decoded body (the map[string]interface{} one).
+func bodyArgOf(call *ssa.Call) ssa.Value {
+	for _, a := range call.Call.Args {
+		if m, ok := a.Type().Underlying().(*types.Map); ok {
+			if b, ok := m.Key().Underlying().(*types.Basic); ok && b.Kind() == types.String {
+				if _, ok := m.Elem().Underlying().(*types.Interface); ok {
+					return a
+				}
+			}
+		}
+	}
+	return nil
 }
